@@ -87,10 +87,12 @@ def evaluate(e, env):
             if t is TOP:
                 unknown = True
                 continue
+            # a definitely falsy (truthy) operand decides `and` (`or`) whatever the unknown
+            # operands before it are: the result is falsy (truthy) either way
             if is_and and not t:
-                return TOP if unknown else x
+                return x if not unknown else False
             if not is_and and t:
-                return TOP if unknown else x
+                return x if not unknown else True
             last = x
         return TOP if unknown else last
     if isinstance(e, ast.UnaryOp):
